@@ -171,8 +171,9 @@ compare(const fn_t *f, uint64_t seed, uint8_t *buf, uint64_t len, uint64_t want,
 
 /* ---- battery */
 #define N_SMALL 1400
+#define N_MID 6
 #define CASE_BIG 100000   /* crc16: 2^31+100 bytes; adler: 2^28+77 bytes of 0xff */
-#define CASE_BIG2 100001  /* adler: 2*2^28+3 bytes of 0xff, non-canonical seed 0xffffffff */
+#define CASE_BIG2 100001  /* adler: 2*2^28+3 bytes of varied content, non-canonical seed 0xffffffff */
 
 static const uint64_t some_seeds[] = { 0, 1, ~0ull, 0x1234, 0x8000000000000000ull, 0xfff0fff0, 0xdeadbeefcafef00dull,
                                        0x00010000, 0xfff1fff1 /* non-canonical Adler halves */ };
@@ -214,19 +215,28 @@ run_case(const fn_t *f, unsigned n)
                                 fprintf(stderr, "big case skipped: no memory\n");
                                 return;
                         }
-                        memset(buf, 0xff, len);
+                        memset(buf, 0xff, len); /* worst case for the accumulators */
+                        if (n == CASE_BIG2)   /* varied content: position mix-ups in the chunk loop show */
+                                for (uint64_t i = 0; i < len; i++)
+                                        buf[i] = (uint8_t) (i ^ (i >> 11));
                         compare(f, seed, buf, len, sp_all(f, seed, buf, len), label);
                         free(buf);
                 }
                 return;
         }
-        /* small cases: deterministic from n */
+        /* small cases: deterministic from n; cases N_SMALL.. are a few medium lengths (worst-case bytes
+         * first: they expose accumulator overflow in Adler variants with a short reduction schedule) */
+        static const uint64_t mid_len[N_MID] = { 5553, 5803, 6000, 65536, 70001, 1000003 };
         rp_s = 0x9E3779B97F4A7C15ull ^ ((uint64_t) n * 0xD1342543DE82EF95ull + 1);
-        uint64_t len = (n + 1) % 301; /* zero-length cases come late: a crashing len==0 bug must not mask the rest */
+        if (n >= N_SMALL + N_MID)
+                return;
+        uint64_t len = n >= N_SMALL ? mid_len[n - N_SMALL] : (n + 1) % 301; /* zero-length cases come late: a crashing len==0 bug must not mask the rest */
         unsigned align = (unsigned) (rp_rand() & 63);
         uint64_t seed = (n & 1) ? some_seeds[(n / 2) % (sizeof some_seeds / sizeof some_seeds[0])] : rp_rand();
         uint8_t *base = malloc(len + 64 + 1), *buf = base + align;
-        unsigned style = (unsigned) (rp_rand() % 4);
+        unsigned style = n >= N_SMALL ? (n & 1) * 2 : (unsigned) (rp_rand() % 4);
+        if (n >= N_SMALL && !(n & 1))
+                seed = 0xfff0fff0fff0fff0ull;
         for (uint64_t i = 0; i < len; i++)
                 buf[i] = style == 0 ? 0xff : style == 1 ? 0 : (uint8_t) rp_rand();
         seed &= width_mask(f->kind);
@@ -245,7 +255,7 @@ RP_MAIN_BEGIN
                 return 2;
         }
         if (rp_search) {
-                for (unsigned n = 0; n < N_SMALL; n++)
+                for (unsigned n = 0; n < N_SMALL + N_MID; n++)
                         run_case(f, n);
                 run_case(f, CASE_BIG);
                 run_case(f, CASE_BIG2);
